@@ -346,18 +346,60 @@ def c07_case(ctx: Ctx, case: dict):
 
 
 # ================================================================== C12
+def c12_c_backend(ctx: Ctx, case: dict, b0, stiff, schemes):
+    """the C backend: the two compiled modules (with / without removal) agree bit for bit"""
+    text, rm, lay = case["text"], b0.rm, b0.layout
+    try:
+        c0 = common.c_code(b0.ode, scheme=schemes, stiff_states=stiff)
+        c1 = common.c_code(b0.ode, scheme=schemes, stiff_states=stiff, remove_unused=True)
+    except Exception as ex:
+        ctx.count(f"c_codegen_failed/{type(ex).__name__}")
+        return
+    m0 = common.CModule(c0, ctx.tmp, f"ru0_{ctx.evaluations}")
+    m1 = common.CModule(c1, ctx.tmp, f"ru1_{ctx.evaluations}")
+    if not m0.ok:
+        ctx.count("c_does_not_compile_without_removal")
+        return
+    if not m1.ok:
+        errs = [ln for ln in m1.compile_log.splitlines() if "error" in ln]
+        ctx.violate("C12/c/does-not-compile", f"with remove_unused the generated C does not compile: {errs[0][:120] if errs else ''}", case={"text": text, "stiff": stiff, "backend": "c"})
+        return
+    for nme in lay["state"]:
+        if m0.index("state_index", nme) != m1.index("state_index", nme):
+            ctx.violate("C12/c/layout-changes", "C state_index differs with remove_unused", case={"text": text, "backend": "c"})
+            return
+    pts = case.get("points") or points_for(ctx, rm, ctx.n(3, 5), dts=(1e-3, 0.1))
+    n = len(lay["state"])
+    for pt in pts:
+        s, p, mv = oracle.arrays_for(pt, lay)
+        for fn, order in (("rhs", "tsp"), ("explicit_euler", "stdp"), ("generalized_rush_larsen", "stdp"), ("hybrid_rush_larsen", "stdp")):
+            r0, _ = m0.call(fn, order, n, states=s.copy(), parameters=p.copy(), t=pt["t"], dt=pt["dt"])
+            r1, g1 = m1.call(fn, order, n, states=s.copy(), parameters=p.copy(), t=pt["t"], dt=pt["dt"])
+            ctx.count("c_comparisons")
+            if not np.array_equal(r0, r1, equal_nan=True) or not np.all(g1 == 1234.5):
+                perm = sorted(map(float, r0)) == sorted(map(float, r1))
+                ctx.violate(f"C12/c/{fn}/" + ("slots-permuted" if perm else "value-differs"),
+                            f"C {fn} returns {list(map(float, r1))} with remove_unused but {list(map(float, r0))} without",
+                            case={"text": text, "stiff": stiff, "points": [pt], "backend": "c"})
+                return
+
+
 def c12_case(ctx: Ctx, case: dict):
     text = case["text"]
+    backend = case.get("backend", "numpy")
+    pyb = "jax" if backend == "jax" else "numpy"
     schemes = [Scheme.explicit_euler, Scheme.generalized_rush_larsen, Scheme.hybrid_rush_larsen]
-    b0 = oracle.build_py(ctx, text, "C12", on_codegen_error="skip", scheme=schemes)
+    b0 = oracle.build_py(ctx, text, "C12", backend=pyb, on_codegen_error="skip", scheme=schemes)
     if b0 is None:
         return
     rm = b0.rm
     stiff = case.get("stiff") or [s for s in rm.states if ctx.rng.random() < 0.5]
-    b0 = oracle.build_py(ctx, text, "C12", rm=rm, ode=b0.ode, on_codegen_error="skip", scheme=schemes, stiff_states=stiff)
-    b1 = oracle.build_py(ctx, text, "C12", rm=rm, ode=b0.ode if b0 else None, scheme=schemes, stiff_states=stiff, remove_unused=True) if b0 else None
+    b0 = oracle.build_py(ctx, text, "C12", backend=pyb, rm=rm, ode=b0.ode, on_codegen_error="skip", scheme=schemes, stiff_states=stiff)
+    b1 = oracle.build_py(ctx, text, "C12", backend=pyb, rm=rm, ode=b0.ode if b0 else None, scheme=schemes, stiff_states=stiff, remove_unused=True) if b0 else None
     if b0 is None or b1 is None:
         return
+    if backend == "c":
+        c12_c_backend(ctx, case, b0, stiff, schemes)
     used = set(rm.mentioned)
     unused = [n for n in list(rm.states) + list(rm.params) + list(rm.inters) if n not in used]
     ctx.case(text, bool(unused), sample={"text": text, "unused": unused})
@@ -385,39 +427,61 @@ def c12_case(ctx: Ctx, case: dict):
         for fn, order in (("rhs", "tsp"), ("explicit_euler", "stdp"), ("generalized_rush_larsen", "stdp"), ("hybrid_rush_larsen", "stdp")):
             kw = dict(states=s, t=pt["t"], dt=pt["dt"], parameters=p, missing=mv)
             try:
-                r0 = oracle.call_py(getattr(b0.mod, fn), order, **kw)
+                r0 = np.asarray(oracle.call_py(getattr(b0.mod, fn), order, **kw))
             except Exception:
                 ctx.count("exec_raises_without_removal")
                 continue
             try:
-                r1 = oracle.call_py(getattr(b1.mod, fn), order, **kw)
+                r1 = np.asarray(oracle.call_py(getattr(b1.mod, fn), order, **kw))
             except Exception as ex:
-                ctx.violate(f"C12/numpy/{fn}/raises/{type(ex).__name__}",
+                ctx.violate(f"C12/{pyb}/{fn}/raises/{type(ex).__name__}",
                             f"with remove_unused the generated {fn} raised {type(ex).__name__}: {str(ex)[:100]}", case={"text": text, "stiff": stiff, "points": [pt]})
                 return
             ctx.count("comparisons")
             if len(r0) != len(r1):
-                ctx.violate(f"C12/numpy/{fn}/length", f"{fn} returns {len(r1)} entries with remove_unused, {len(r0)} without", case={"text": text, "stiff": stiff, "points": [pt]})
+                ctx.violate(f"C12/{pyb}/{fn}/length", f"{fn} returns {len(r1)} entries with remove_unused, {len(r0)} without", case={"text": text, "stiff": stiff, "points": [pt]})
                 return
             if not np.array_equal(r0, r1, equal_nan=True):
                 i = int(np.flatnonzero(~((r0 == r1) | ((r0 != r0) & (r1 != r1))))[0])
                 perm = sorted(map(float, r0)) == sorted(map(float, r1))
-                ctx.violate(f"C12/numpy/{fn}/" + ("slots-permuted" if perm else "value-differs"),
+                ctx.violate(f"C12/{pyb}/{fn}/" + ("slots-permuted" if perm else "value-differs"),
                             f"{fn}[{i}] = {r1[i]!r} with remove_unused but {r0[i]!r} without"
                             + (" (the same values in other slots)" if perm else ""),
-                            case={"text": text, "stiff": stiff, "points": [pt]})
+                            case={"text": text, "stiff": stiff, "points": [pt], "backend": backend})
                 return
+
+
+def c12_run(ctx: Ctx):
+    """NumPy on most cases, the C backend on every fourth, JAX on every fifth (small models)"""
+    n = ctx.n(30, 1200)
+    for k in range(n):
+        cfg = unused_cfg(ctx, k)
+        backend = "numpy"
+        if k % 4 == 3:
+            backend = "c"
+        elif k % 5 == 2:
+            backend = "jax"
+            cfg.max_inters, cfg.max_states = 5, 4
+            cfg.expr = gen.ExprCfg(p_cond=0.05, p_ccond=0.0, p_floor=0.0, p_mod=0.0)
+        m = gen.gen_model(ctx.rng, cfg)
+        with common.time_limit(ctx, 120 if backend == "jax" else 40):
+            c12_case(ctx, {"text": m.text(ctx.rng), "backend": backend})
+        if ctx.elapsed() > (1500 if ctx.thorough else 150):
+            ctx.notes.append(f"time budget reached after {k + 1} cases")
+            break
 
 
 # ================================================================== C04
 def c04_case(ctx: Ctx, case: dict):
     text = case["text"]
     backend = case.get("backend", "numpy")
-    b = oracle.build_py(ctx, text, "C04", backend=backend, on_codegen_error="skip", scheme=[Scheme.explicit_euler, Scheme.generalized_rush_larsen])
+    ru = bool(case.get("remove_unused", False))
+    b = oracle.build_py(ctx, text, "C04", backend=backend, on_codegen_error="skip", scheme=[Scheme.explicit_euler, Scheme.generalized_rush_larsen],
+                        **({"remove_unused": True} if ru else {}))
     if b is None:
         return
     rm, lay, mod = b.rm, b.layout, b.mod
-    ctx.case(text + backend, len(rm.states) >= 2 and len(rm.inters) >= 1, sample={"text": text, "backend": backend})
+    ctx.case(text + backend + str(ru), len(rm.states) >= 2 and len(rm.inters) >= 1, sample={"text": text, "backend": backend, "remove_unused": ru})
     r = ctx.lean().call({"op": "validate", "text": text, "kind": "rhs", "layout": lay, "prog": []})
     if not r.get("layout_ok"):
         ctx.violate(f"C04/{backend}/layout", "index maps do not enumerate exactly the declared states / parameters / monitored names",
@@ -584,9 +648,13 @@ def c04_run(ctx: Ctx):
             backend = "jax"
             cfg = gen.ModelCfg(max_states=13, min_states=11 if k % 2 == 0 else 1, max_inters=5, depth=1)
             cfg.expr = gen.ExprCfg(p_floor=0.0, p_mod=0.0, p_ccond=0.0)
+        ru = (k % 4 == 1) or (backend == "jax" and k % 2 == 0)
+        if ru:      # unused intermediates whose removal changes the sorter's tie-breaks
+            cfg.p_unused_inter = 0.8
+            cfg.max_inters = max(cfg.max_inters, 5)
         m = gen.gen_model(ctx.rng, cfg)
         with common.time_limit(ctx, 120):
-            c04_case(ctx, {"text": m.text(ctx.rng), "backend": backend})
+            c04_case(ctx, {"text": m.text(ctx.rng), "backend": backend, "remove_unused": ru})
         if ctx.elapsed() > (1500 if ctx.thorough else 160):
             ctx.notes.append(f"time budget reached after {k + 1} cases")
             break
